@@ -8,7 +8,7 @@
    in any order of the enabled internal rules. *)
 From Coq Require Import List ZArith Bool.
 Import ListNotations.
-From Goat Require Import Model.Client Model.Server Proofs.ServerProofs Proofs.ServerInv Proofs.ServerLive.
+From Goat Require Import Model.Client Model.Server Proofs.ServerProofs Proofs.ServerInv Proofs.ServerLive Proofs.ServerTrace.
 Open Scope Z_scope.
 
 (* no reachable state is crashed: the places where the code dereferences the
@@ -35,6 +35,44 @@ Proof.
   intros ls s H. apply (srv_quiescent_idle nworkers); [unfold nworkers; auto with arith | exact (inv_reach nworkers ls s H)].
 Qed.
 Print Assumptions C12_never_stalls.
+
+(* dispatch, exactly once and only for qualifying envelopes: the handler-invocation events in the history are
+   exactly one per handler ever started, in start order, each carrying the id, method, payload (unary) and
+   metadata of the envelope that started it ([sigs s] lists (unary?, starting envelope) of the handlers); and
+   every such envelope passed the filters: header present, method parses and is registered, destination = the
+   server's name, metadata decodes, and - unary - the body decodes, - stream - no reset, no body, no trailer. *)
+Theorem C12_dispatch_sound : forall ls s, lrun init ls = Some s ->
+  filter is_invoke (log s) = invs_from 0 (sigs s) /\ (forall p, In p (sigs s) -> req_ok p).
+Proof. exact (srv_dispatch nworkers). Qed.
+Print Assumptions C12_dispatch_sound.
+
+(* ... and what the read loop does with an envelope naming a stream method that passed the filters, in full:
+   a handler is started iff the id is not open and the envelope is a pure open; it is forwarded to the open
+   stream's queue iff the id is open and it is not a reset (whatever else it carries: body, trailer, a second
+   open, undecodable metadata); a reset is due (the read loop enters resetStream with it) iff the id is not open,
+   it is not a reset and it carries a body or - with neither body nor trailer - undecodable metadata; in the
+   remaining cases (reset / trailer for an unknown id, reset for an open id = cancel) nothing is started,
+   forwarded or answered. *)
+Theorem C12_dispatch_stream : forall s f rest,
+  rd s = RdRead -> inbox s = f :: rest -> dispatch f = DStream ->
+  exists s', r_rd_read s = Some s'
+    /\ (length (hs s') = S (length (hs s))
+        <-> (find_reg (fid f) (hs s) 0 = None /\ is_rst f = false /\ has_body f = false /\ has_trl f = false /\ md_bad f = false))
+    /\ (rd s' = RdRst f
+        <-> (find_reg (fid f) (hs s) 0 = None /\ is_rst f = false /\ (has_body f = true \/ (has_trl f = false /\ md_bad f = true))))
+    /\ ((exists h, rd s' = RdFwd h f) <-> (exists h, find_reg (fid f) (hs s) 0 = Some h /\ is_rst f = false)).
+Proof. exact srv_dispatch_stream_step. Qed.
+Print Assumptions C12_dispatch_stream.
+
+(* reset: the envelope the read loop hands to the writer from resetStream is the reset for that id, source and
+   destination swapped, same method *)
+Theorem C12_reset : forall s f s',
+  rd s = RdRst f -> r_rd_rst s = Some s' -> crashed s' = false ->
+  wr s' = WrWrite (rst_reply f) /\ rd s' = RdRead
+  /\ eid (f_env (rst_reply f)) = fid f /\ f_src (rst_reply f) = f_dst f /\ f_dst (rst_reply f) = f_src f
+  /\ f_mth (rst_reply f) = f_mth f /\ erst (f_env (rst_reply f)) = true.
+Proof. exact srv_reset_step. Qed.
+Print Assumptions C12_reset.
 
 (* the hypotheses are met by a non-trivial reachable state: garbage, a stream that was opened, fed and closed,
    an undecodable unary request, and an answered unary request *)
